@@ -241,6 +241,7 @@ def job(args):
         phi.attrs['_value'].attrs['_modified'] = vd
         rec = []
         ext = PyCallable(lambda a, k: (rec.append(a), Box(flat_vector(w, 'sol')))[1])
+        w.interp.solver_hook = lambda name, a, k: (rec.append(a), Box(flat_vector(w, 'sol')))[1]     # whichever solver is called
         Mt = w.call('source', 'linearSourceTerm', w.cell_variable('beta'))
         try:
             w.call('pdesolver', 'solvePDE', phi, [Mt], ext)
@@ -261,6 +262,7 @@ def job(args):
     w.interp.set_attr(bc.attrs['left'], 'c', Rat.atom(('cnew',)), None)
     rec = []
     ext = PyCallable(lambda a, k: (rec.append(a), Box(flat_vector(w, 'sol')))[1])
+    w.interp.solver_hook = lambda name, a, k: (rec.append(a), Box(flat_vector(w, 'sol')))[1]     # whichever solver is called
     Mt = w.call('source', 'linearSourceTerm', w.cell_variable('beta'))
     stale_seen = None
     try:
